@@ -97,9 +97,24 @@ def component_cases(prob, max_inputs=5, with_jac=True):
             z = dict(vals)
             z[n] = vals[n] * 1.37 + (0.0 if np.any(vals[n] != 0) else 0.1)
             variants.append(("*" + n, z))
+        if isinstance(comp, om.ImplicitComponent):
+            # implicit components: two successive states with IDENTICAL outputs but different inputs (a zero right-hand side
+            # with two different matrices): a factorization kept "because the state has not moved" is stale at the second one.
+            # Encoded as a two-step variant: first `pre`, then `z`.
+            for n in names[:max_inputs]:
+                for m_ in names[:max_inputs]:
+                    if m_ != n:
+                        pre = dict(vals)
+                        pre[n] = np.zeros_like(vals[n])
+                        z = dict(pre)
+                        z[m_] = vals[m_] * 1.37
+                        variants.append(("%s=0 then *%s" % (n, m_), (pre, z)))
         with warnings.catch_warnings(), np.errstate(all="ignore"):
             warnings.simplefilter("ignore")
             for what, z in variants:
+                pre = None
+                if isinstance(z, tuple):
+                    pre, z = z
                 try:
                     fresh = _problem(comp, z)
                     fresh.run_model()
@@ -113,6 +128,12 @@ def component_cases(prob, max_inputs=5, with_jac=True):
                     live.run_model()
                     if with_jac:
                         _jac(live)  # linearised at the model's inputs first
+                    if pre is not None:
+                        for n, v in pre.items():
+                            live.set_val(n, v)
+                        live.run_model()
+                        if with_jac:
+                            _jac(live)
                     for n, v in z.items():
                         live.set_val(n, v)
                     live.run_model()
